@@ -284,6 +284,9 @@ class Engine:
         c = [q for q in self._reader_callees_of_read()
              if q not in (self.frame_assembler, self.read_primitive, self.line_primitive, self.error_dispatcher)
              and self.read_primitive in self.res.callees(q) and not self.repo.funcs[q].is_property]
+        if len(c) > 1:
+            # a skipper is handed the header already read; a helper without parameters (a header reader / classifier) is not one
+            c = [q for q in c if len(self.repo.funcs[q].params) > 1] or c
         return self._one("UBX skipper", c)
 
     @cached_property
@@ -302,6 +305,8 @@ class Engine:
         c = [q for q in self._reader_callees_of_read()
              if q not in (self.frame_assembler, self.read_primitive, self.line_primitive, self.error_dispatcher)
              and self.line_primitive in self.res.callees(q) and not self.repo.funcs[q].is_property]
+        if len(c) > 1:
+            c = [q for q in c if len(self.repo.funcs[q].params) > 1] or c
         return self._one("NMEA skipper", c)
 
     @cached_property
